@@ -82,11 +82,15 @@ iterator over `grounded_internal(&self.ac)`, filtered by `cmp_information` of ev
 restricted by the candidate's decided statements).
 
 ASSUMPTION ABOUT THE EXTERNAL LIBRARY (`biodivine_lib_bdd`, not modelled): `W : Bio.Lawful L n` —
-every diagram of the variable set denotes a Boolean function, `select` conjoins the given literals,
-`exists` projects the given variables away, `and` / `iff` / `eval_expression` compute what they
-say, `is_true` / `is_false` are exact, `sat_valuations` enumerates every satisfying total valuation
-once. Nothing else about the library is used; `restrict` = cofactor and the loop bound of
-`grounded_internal` are PROVED from these laws (`Bio.restrict_den`, `Bio.groundedLoopB_fuel`).
+every diagram of the variable set denotes a Boolean function, the library's INHERENT
+`Bdd::restrict(&[(var, value)])` is the cofactor by the listed literals (`Lawful.restrict_spec`; this
+is the routine `ac.restrict(..)` resolves to - the file's own `impl BddRestrict`, `select` then
+`exists`, is shadowed dead code), `and` / `iff` / `eval_expression` compute what they say, `is_true` /
+`is_false` are exact ON EVERY diagram the operations return (in the crate: node-count tests, exact
+because results are reduced), `sat_valuations` enumerates every satisfying total valuation once.
+(`select` / `exists` are part of the interface only for the lemma `Bio.restrictSE_den`: the shadowed
+composition would denote the same cofactor; no property theorem uses them.) Nothing else about the
+library is used; the loop bound of `grounded_internal` is PROVED (`Bio.groundedLoopB_fuel`).
 
 For every lawful library and valid conditions: read as three-valued interpretations the answers
 contain no duplicate, are exactly the fixpoints of Γ of length `n`, the first answer is the
